@@ -282,13 +282,19 @@ def encodeFrame (fin : Bool) (rsv opcode : Nat) (key : Option Key) (applyMask : 
 def S.masksFrames (s : S) : Bool :=
   (!s.cfg.isServer && s.cfg.maskClient) || (s.cfg.isServer && s.cfg.maskServer)
 
+/-- one key from the key stream when this endpoint masks its frames -/
+def drawKey (s : S) : S × Option Key :=
+  if s.masksFrames then ({ s with keyCtr := s.keyCtr + 1 }, some (keyOf s.keyCtr)) else (s, none)
+
+def recordOp (s : S) (opcode : Nat) : S := { s with sentOps := s.sentOps ++ [opcode] }
+
 /-- `sendFrame(opcode, payload, fin, rsv, sync=…, chopsize=…)` with `mask=None`, `payload_len=None` -/
 def sendFrame (s : S) (opcode : Nat) (pl : Bytes) (fin : Bool := true) (rsv : Nat := 0)
     (sync : Bool := false) (chopsize : Nat := 0) : S :=
-  let (s, key) := if s.masksFrames then ({ s with keyCtr := s.keyCtr + 1 }, some (keyOf s.keyCtr)) else (s, none)
-  match encodeFrame fin rsv opcode key s.cfg.applyMask pl with
-  | none => s.emit (.raised .exception)
-  | some raw => sendData { s with sentOps := s.sentOps ++ [opcode] } raw sync chopsize
+  let r := drawKey s
+  match encodeFrame fin rsv opcode r.2 r.1.cfg.applyMask pl with
+  | none => r.1.emit (.raised .exception)
+  | some raw => sendData (recordOp r.1 opcode) raw sync chopsize
 
 def sendPing (s : S) (pl : Bytes) : S :=
   if s.st ≠ .opened then s
@@ -385,23 +391,23 @@ def closeReasonStep (s : S) (reasonRaw : Option Bytes) : S × Bool :=
     else ({ s with remoteCloseReason := some r }, false)
   | none => (s, false)
 
+/-- our reply to a peer-initiated close: echo code/reason, or 1000 -/
+def replyClose (s : S) : S :=
+  if s.cfg.echoClose then
+    sendCloseFrame s s.remoteCloseCode (s.remoteCloseReason.map (encodeTruncate · 123)) true
+  else sendCloseFrame s (some 1000) none true
+
+/-- after both close frames travelled: a server drops TCP, a client waits for the server to do it (with a timer) -/
+def afterCloseHandshake (s : S) (abort : Bool) : S × Bool :=
+  if s.cfg.isServer then (dropConnection s abort, false)
+  else if s.cfg.serverDropTimeout > 0 then (armServerDrop s, false)
+  else (s, false)
+
 /-- the state-dependent part of `onCloseFrame` -/
 def closeStateStep (s : S) : S × Bool :=
   match s.st with
-  | .closing =>
-    let s := { s with tCloseHs := none, wasClean := true }
-    if s.cfg.isServer then (dropConnection s true, false)
-    else if s.cfg.serverDropTimeout > 0 then (armServerDrop s, false)
-    else (s, false)
-  | .opened =>
-    let s := { s with wasClean := true }
-    let s :=
-      if s.cfg.echoClose then
-        sendCloseFrame s s.remoteCloseCode (s.remoteCloseReason.map (encodeTruncate · 123)) true
-      else sendCloseFrame s (some 1000) none true
-    if s.cfg.isServer then (dropConnection s false, false)
-    else if s.cfg.serverDropTimeout > 0 then (armServerDrop s, false)
-    else (s, false)
+  | .closing => afterCloseHandshake { s with tCloseHs := none, wasClean := true } true
+  | .opened => afterCloseHandshake (replyClose { s with wasClean := true }) false
   | .closed => ({ s with wasClean := false }, false)
   | .connecting => (s.emit (.raised .exception), true)
 
@@ -414,26 +420,39 @@ def onCloseFrame (s : S) (code : Option Nat) (reasonRaw : Option Bytes) : S × B
   if r2.2 then (r2.1, true) else
   closeStateStep r2.1
 
-/-- `_connectionLost` -/
-def connectionLost (s : S) : S :=
-  if s.lost then s else
-  let s := { s with lost := true, tServerDrop := none, tPingNext := none, tPingTimeout := none, tOpenHs := none }
-  let s := if s.st ≠ .closed then ({ s with st := .closed }).emit .closedResolved else s
+/-- `_connectionLost`: timers cancelled there -/
+def cancelOnLost (s : S) : S :=
+  { s with lost := true, tServerDrop := none, tPingNext := none, tPingTimeout := none, tOpenHs := none }
+
+/-- `_connectionLost`: `if self.state != CLOSED: state = CLOSED; resolve(is_closed)` -/
+def markClosed (s : S) : S :=
+  if s.st ≠ .closed then ({ s with st := .closed }).emit .closedResolved else s
+
+/-- `_connectionLost`: the one call of `onClose` -/
+def reportClose (s : S) : S :=
   if !s.wasClean then
     let s := if !s.droppedByMe && s.notClean.isNone then { s with notClean := some .peerDropped } else s
     s.emit (.onClose false (some 1006) none s.notClean)
   else s.emit (.onClose true s.remoteCloseCode s.remoteCloseReason none)
+
+/-- `_connectionLost` -/
+def connectionLost (s : S) : S :=
+  if s.lost then s else reportClose (markClosed (cancelOnLost s))
 
 /-! ## automatic ping/pong -/
 
 def pingPayload (s : S) : Bytes :=
   beBytes 8 0 ++ beBytes 4 s.pingSeq ++ List.replicate (s.cfg.pingSize - 12) 0
 
+/-- bookkeeping of `_sendAutoPing` before the ping goes out -/
+def beginAutoPing (s : S) : S :=
+  let s := { s with tPingNext := none, pingSeq := s.pingSeq + 1 }
+  { s with pingPending := some (pingPayload s) }
+
 /-- `_sendAutoPing` -/
 def sendAutoPing (s : S) : S :=
-  let s := { s with tPingNext := none, pingSeq := s.pingSeq + 1 }
-  let s := { s with pingPending := some (pingPayload s) }
-  let s := sendPing s (pingPayload s)
+  let s := beginAutoPing s
+  let s := sendPing s (s.pingPending.getD [])
   if s.cfg.pingTimeout > 0 then armPingTimeout s else s
 
 /-- `_cancelAutoPingTimeoutCall` -/
@@ -468,70 +487,91 @@ def onFrameBegin (s : S) (h : Hdr) : S :=
       else s
     onMessageFrameBegin s h.length
 
+/-- incremental UTF-8 validation of one payload chunk of a text message; the Bool says "go on" -/
+def utf8Step (s : S) (payload : Bytes) : S × Bool :=
+  if s.utf8On && !s.msgCompressed then
+    let u := u8run s.utf8 payload
+    -- `Utf8Validator.validate` only reports a reject met inside its own loop: an empty chunk is "valid"
+    -- even when the validator already sits in the reject state
+    let bad := u = .rej && !payload.isEmpty
+    let s := { s with utf8 := u, utf8Ok := !bad, utf8Ends := u = .s0 }
+    if bad then
+      let r := violation s 1007
+      (r.1, !r.2)
+    else (s, true)
+  else (s, true)
+
+/-- `onMessageFrameData(payload)` -/
+def onMessageFrameData (s : S) (payload : Bytes) : S :=
+  if !s.failedByMe then { s with frameData := s.frameData ++ payload } else s
+
 /-- `onFrameData(payload)`; `false` = stop processing -/
 def onFrameData (s : S) (h : Hdr) (payload : Bytes) : S × Bool :=
   if h.opcode > 7 then ({ s with controlData := s.controlData ++ payload }, true)
   else
-    let (s, go) :=
-      if s.utf8On && !s.msgCompressed then
-        let u := u8run s.utf8 payload
-        -- `Utf8Validator.validate` only reports a reject met inside its own loop: an empty chunk is "valid"
-        -- even when the validator already sits in the reject state
-        let bad := u = .rej && !payload.isEmpty
-        let s := { s with utf8 := u, utf8Ok := !bad, utf8Ends := u = .s0 }
-        if bad then
-          let (s, stop) := violation s 1007
-          (s, !stop)
-        else (s, true)
-      else (s, true)
-    if !go then (s, false)
-    else
-      -- onMessageFrameData
-      (if !s.failedByMe then { s with frameData := s.frameData ++ payload } else s, true)
+    let r := utf8Step s payload
+    if !r.2 then (r.1, false)
+    else (onMessageFrameData r.1 payload, true)
+
+/-- a pong arrived: auto-ping bookkeeping -/
+def onPongFrame (s : S) (payload : Bytes) : S :=
+  match s.pingPending with
+  | some pp =>
+    if payload = pp then
+      let s := { s with tPingTimeout := none, pingPending := none }
+      if s.cfg.pingInterval > 0 then armPingNext s else s
+    else s
+  | none => s
+
+/-- a ping arrived: deliver, and answer while OPEN -/
+def onPingFrame (s : S) (payload : Bytes) : S :=
+  let s := s.emit (.onPing payload)
+  if s.st = .opened then sendPong s payload else s
+
+def closeCodeOf (payload : Bytes) : Option Nat :=
+  if payload.length > 1 then some (beNat (payload.take 2)) else none
+
+def closeReasonOf (payload : Bytes) : Option Bytes :=
+  if payload.length > 2 then some (payload.drop 2) else none
 
 /-- `processControlFrame` -/
 def processControlFrame (s : S) (h : Hdr) : S :=
   let payload := s.controlData
   let s := { s with controlData := [] }
-  if h.opcode = 8 then
-    let code := if payload.length > 1 then some (beNat (payload.take 2)) else none
-    let reason := if payload.length > 2 then some (payload.drop 2) else none
-    (onCloseFrame s code reason).1
-  else if h.opcode = 9 then
-    let s := s.emit (.onPing payload)
-    if s.st = .opened then sendPong s payload else s
-  else if h.opcode = 10 then
-    let s :=
-      match s.pingPending with
-      | some pp =>
-        if payload = pp then
-          let s := { s with tPingTimeout := none, pingPending := none }
-          if s.cfg.pingInterval > 0 then armPingNext s else s
-        else s
-      | none => s
-    s.emit (.onPong payload)
+  if h.opcode = 8 then (onCloseFrame s (closeCodeOf payload) (closeReasonOf payload)).1
+  else if h.opcode = 9 then onPingFrame s payload
+  else if h.opcode = 10 then (onPongFrame s payload).emit (.onPong payload)
   else s
+
+/-- `onMessageFrameEnd` + the auto-ping restart on any data frame -/
+def endDataFrame (s : S) : S :=
+  let s := if !s.failedByMe then { s with messageData := s.messageData ++ s.frameData } else s
+  let s := { s with frameData := [] }
+  if s.tPingTimeout.isSome && s.cfg.pingRestart then cancelAutoPingTimeout s else s
+
+/-- `onMessageEnd`: hand the reassembled message to the application unless the connection was failed -/
+def deliverMessage (s : S) : S :=
+  if !s.failedByMe then s.emit (.onMessage s.messageData s.msgBinary s.msgCompressed) else s
+
+def resetMessage (s : S) : S := { s with messageData := [], insideMessage := false, cur := none }
+
+/-- end of the final frame of a message: UTF-8 must end on a code point; then `onMessageEnd` -/
+def endMessageStep (s : S) : S × Bool :=
+  let r :=
+    if s.utf8On && !s.msgCompressed && !s.utf8Ends then
+      let v := violation s 1007
+      (v.1, !v.2)
+    else (s, true)
+  if !r.2 then (r.1, false)
+  else (resetMessage (deliverMessage r.1), true)
 
 /-- `onFrameEnd`; `false` = stop processing -/
 def onFrameEnd (s : S) (h : Hdr) : S × Bool :=
   if h.opcode > 7 then
     ({ processControlFrame s h with cur := none }, true)
   else
-    -- onMessageFrameEnd
-    let s := if !s.failedByMe then { s with messageData := s.messageData ++ s.frameData } else s
-    let s := { s with frameData := [] }
-    let s := if s.tPingTimeout.isSome && s.cfg.pingRestart then cancelAutoPingTimeout s else s
-    if h.fin then
-      let (s, go) :=
-        if s.utf8On && !s.msgCompressed && !s.utf8Ends then
-          let (s, stop) := violation s 1007
-          (s, !stop)
-        else (s, true)
-      if !go then (s, false)
-      else
-        -- onMessageEnd
-        let s := if !s.failedByMe then s.emit (.onMessage s.messageData s.msgBinary s.msgCompressed) else s
-        ({ s with messageData := [], insideMessage := false, cur := none }, true)
+    let s := endDataFrame s
+    if h.fin then endMessageStep s
     else ({ s with cur := none }, true)
 
 /-- the rules applied to the first two header octets, in the order of `processData` (see Model/WsHeader.lean);
@@ -674,16 +714,20 @@ def sendMessage (s : S) (pl : Bytes) (binary : Bool) (fragmentSize : Option Nat 
       else if f < 1 then s.emit (.raised .exception)
       else sendFrags s opcode sync (fragments f pl.length pl) true
 
+/-- `factory.prepareMessage` masks iff the factory is a client factory (`applyMask = not isServer`) -/
+def prepareKey (s : S) : S × Option Key :=
+  if !s.cfg.isServer then ({ s with keyCtr := s.keyCtr + 1 }, some (keyOf s.keyCtr)) else (s, none)
+
 /-- `sendPreparedMessage(factory.prepareMessage(payload, isBinary))`: the frame is built at prepare time
 with `applyMask = not isServer` and one key -/
 def sendPrepared (s : S) (pl : Bytes) (binary : Bool) : S :=
   -- the key is drawn when the message is prepared (factory.prepareMessage), before the state check of the send
-  let (s, key) := if !s.cfg.isServer then ({ s with keyCtr := s.keyCtr + 1 }, some (keyOf s.keyCtr)) else (s, none)
-  match encodeFrame true 0 (if binary then 2 else 1) key true pl with
-  | none => s.emit (.raised .exception)
+  let r := prepareKey s
+  match encodeFrame true 0 (if binary then 2 else 1) r.2 true pl with
+  | none => r.1.emit (.raised .exception)
   | some raw =>
-    if s.st ≠ .opened then s.emit (.raised .disconnected)
-    else sendData { s with sentOps := s.sentOps ++ [if binary then 2 else 1] } raw
+    if r.1.st ≠ .opened then r.1.emit (.raised .disconnected)
+    else sendData (recordOp r.1 (if binary then 2 else 1)) raw
 
 /-! ## streaming send API -/
 
@@ -692,21 +736,26 @@ def beginMessage (s : S) (binary : Bool) : S :=
   else if s.sendSt ≠ .ground then s.emit (.raised .exception)
   else { s with sendOpcode := if binary then 2 else 1, sendSt := .messageBegin, begun := true }
 
+/-- per-frame send state set up by `beginMessageFrame` -/
+def setFrameState (s : S) (length : Nat) (key : Option Key) (op : Nat) : S :=
+  { s with frameLen := length, frameKey := key, framePtr := 0,
+           frameMasking := key.isSome && length > 0 && s.cfg.applyMask,
+           sendSt := .insideMessage, sentOps := s.sentOps ++ [op] }
+
+def enterFrame (s : S) : S := { s with sendSt := .insideFrame }
+
 /-- body of `beginMessageFrame` in state OPEN; `none` = it raised -/
 def beginMessageFrameCore (s : S) (length : Nat) : Option S :=
   if !(s.sendSt = .messageBegin || s.sendSt = .insideMessage) then none
   else if length > 0x7FFFFFFFFFFFFFFF then none
   else
-    let (s, key) := if s.masksFrames then ({ s with keyCtr := s.keyCtr + 1 }, some (keyOf s.keyCtr)) else (s, none)
-    let s := { s with frameLen := length, frameKey := key, framePtr := 0,
-                      frameMasking := key.isSome && length > 0 && s.cfg.applyMask }
-    let op := if s.sendSt = .messageBegin then s.sendOpcode else 0
+    let r := drawKey s
+    let op := if r.1.sendSt = .messageBegin then r.1.sendOpcode else 0
     match encodeLen length with
     | none => none
     | some (l7, el) =>
-      let header := [b0 false 0 op, b1 key.isSome l7] ++ el ++ (match key with | some k => Key.bytes k | none => [])
-      let s := sendData { s with sendSt := .insideMessage, sentOps := s.sentOps ++ [op] } header
-      some { s with sendSt := .insideFrame }
+      let header := [b0 false 0 op, b1 r.2.isSome l7] ++ el ++ (match r.2 with | some k => Key.bytes k | none => [])
+      some (enterFrame (sendData (setFrameState r.1 length r.2 op) header))
 
 def beginMessageFrame (s : S) (length : Nat) : S :=
   if s.st ≠ .opened then s
@@ -714,21 +763,25 @@ def beginMessageFrame (s : S) (length : Nat) : S :=
     | some s' => s'
     | none => s.emit (.raised .exception)
 
+def maskFrameChunk (s : S) (p : Bytes) : Bytes :=
+  if s.frameMasking then
+    match s.frameKey with
+    | some k => (Xor.spec k s.framePtr p).1
+    | none => p
+  else p
+
+def advanceFramePtr (s : S) (n : Nat) : S := { s with framePtr := s.framePtr + n }
+
+def leaveFrameIfDone (s : S) : S :=
+  if s.framePtr ≥ s.frameLen then { s with sendSt := .insideMessage } else s
+
 def sendMessageFrameData (s : S) (pl : Bytes) (sync : Bool := false) : S :=
   if s.st ≠ .opened then s
   else if !s.begun then s.emit (.raised .exception)   -- AttributeError: send_compressed
   else if s.sendSt ≠ .insideFrame then s.emit (.raised .exception)
   else
     let p := if s.framePtr + pl.length > s.frameLen then pl.take (s.frameLen - s.framePtr) else pl
-    let plm :=
-      if s.frameMasking then
-        match s.frameKey with
-        | some k => (Xor.spec k s.framePtr p).1
-        | none => p
-      else p
-    let s := { s with framePtr := s.framePtr + p.length }
-    let s := sendData s plm sync
-    if s.framePtr ≥ s.frameLen then { s with sendSt := .insideMessage } else s
+    leaveFrameIfDone (sendData (advanceFramePtr s p.length) (maskFrameChunk s p) sync)
 
 def endMessage (s : S) : S :=
   if s.st ≠ .opened then s
